@@ -93,9 +93,20 @@ func zzHistoryStep(w *zzWorld, i int, allowPolicy bool, variant *int) {
 	p := "s" + strconv.Itoa(i)
 	nkinds := 3
 	if allowPolicy {
-		nkinds = 5 + verif.Bound("propagation", 1, 1)
+		nkinds = 5 + verif.Bound("propagation", 1, 1) + verif.Bound("annotations", 0, 1)
 	}
 	switch verif.Concrete(verif.Choice(p+".kind", nkinds)) {
+	case 6:
+		// an annotation (revoking or merely commenting) on one earlier push
+		var pushes []int
+		for k := range w.hist {
+			if w.hist[k].kind == "push" {
+				pushes = append(pushes, k)
+			}
+		}
+		if len(pushes) > 0 {
+			w.zzAnnotate(0, verif.ConcreteBool(verif.Bool(p+".isskip")), pushes[verif.Concrete(verif.Choice(p+".target", len(pushes)))])
+		}
 	case 5:
 		// a propagation entry recorded for main by an arbitrary signer
 		*variant++
@@ -146,7 +157,16 @@ func zzCheckRef(w *zzWorld, ref string, withGlobals bool) {
 	allAuthorized := true
 	pushesAuthorized := true
 	unauthorizedPropagation := false
+	annotated := false
+	for k := range w.hist {
+		if w.hist[k].kind == "skip" {
+			annotated = true
+		}
+	}
 	for _, e := range events {
+		if e.skipped {
+			continue // revoked: the statement is about entries that have not been revoked
+		}
 		a := zzAuthorized(w, e)
 		if withGlobals {
 			a = verif.And(a, zzGlobalsSatisfied(w, e))
@@ -171,10 +191,15 @@ func zzCheckRef(w *zzWorld, ref string, withGlobals bool) {
 	if err == nil {
 		verif.Reach("accepted")
 		verif.Assert(verif.Or(allAuthorized, k2), "accepted-implies-every-entry-authorised"+label)
-		verif.Assert(tip.Equal(events[len(events)-1].target), "tip-is-latest-target"+label)
+		if !annotated {
+			verif.Assert(tip.Equal(events[len(events)-1].target), "tip-is-latest-target"+label)
+		}
 	} else {
 		verif.Reach("rejected")
-		verif.Assert(!allAuthorized, "authorised-history-verifies"+label)
+		if !annotated {
+			// (with revocations in the log, recovery rules decide: C07)
+			verif.Assert(!allAuthorized, "authorised-history-verifies"+label)
+		}
 	}
 }
 
